@@ -69,6 +69,9 @@ func (l *Login) advance(out *bytes.Buffer) {
 func (l *Login) Start() []byte {
 	var out bytes.Buffer
 
+	// every connection is greeted from the top of the script
+	l.idx, l.state, l.line = 0, "", nil
+
 	l.advance(&out)
 
 	return out.Bytes()
